@@ -1,0 +1,7 @@
+//go:build !verif
+
+package pmtiles
+
+// verifEvent is a no-op without the verif build tag.
+func verifEvent(kind string, key cacheKey, total, ncache, nlist int, inflight map[cacheKey][]request, detail string) {
+}
